@@ -14,7 +14,7 @@ def render(e, mode='text'):
     k = e[0]
     R = lambda x: render(x, mode)
     if k == 'lit':
-        return f'{b}"{e[1]}"'
+        return f'{b}"' + e[1].replace('\\', '\\\\').replace('\n', '\\n') + '"'
     if k == 'ilit':
         return f'{b}"{e[1]}"i'
     if k == 'rx':
